@@ -58,6 +58,9 @@ func (fg *FnGen) call(instr ssa.Instruction, cc *ssa.CallCommon) *Val {
 
 func (fg *FnGen) callWith(cc *ssa.CallCommon, args []*Val, resT types.Type, pos token.Pos, isGo bool) *Val {
 	name := calleeName(cc)
+	if strings.HasPrefix(name, "dynamic:") {
+		name = "dynamic:" + fg.dynCalleeName(cc.Value)
+	}
 	savedCC := fg.curCC
 	fg.curCC = cc
 	defer func() { fg.curCC = savedCC }()
@@ -145,6 +148,7 @@ func (fg *FnGen) callWith(cc *ssa.CallCommon, args []*Val, resT types.Type, pos 
 			res = fg.uncontractedCall(cc, fn, name, args, resT, pos)
 		}
 	}
+	fg.ctxErrAfterCall(cc, args, res)
 	fg.atCallGhosts(name, args, res, pos)
 	return res
 }
@@ -153,10 +157,11 @@ func (fg *FnGen) atCallAsserts(name string, args []*Val, pos token.Pos) {
 	if fg.c == nil {
 		return
 	}
-	for _, ac := range fg.c.AtCalls {
+	for i, ac := range fg.c.AtCalls {
 		if ac.Kind != "ghostpre" || !matchCallee(ac.Callee, name) {
 			continue
 		}
+		fg.acMatched[i] = true
 		comp, ok := fg.ghosts[ac.Target]
 		if !ok {
 			panic(unsupported("unknown ghost variable " + ac.Target))
@@ -167,10 +172,11 @@ func (fg *FnGen) atCallAsserts(name string, args []*Val, pos token.Pos) {
 		v := fg.evalC(ac.Clause.Expr, env)
 		fg.set(comp, v.one())
 	}
-	for _, ac := range fg.c.AtCalls {
+	for i, ac := range fg.c.AtCalls {
 		if ac.Kind != "assert" || !matchCallee(ac.Callee, name) {
 			continue
 		}
+		fg.acMatched[i] = true
 		env := fg.env(fg.cur, fg.entry, nil)
 		fg.bindCallArgs(env, args)
 		env.atBlock = fg.curBlock
@@ -188,10 +194,11 @@ func (fg *FnGen) atCallGhosts(name string, args []*Val, res *Val, pos token.Pos)
 		return
 	}
 	// lemmas: proved right after the call (with `result` bound), then available as facts
-	for _, ac := range fg.c.AtCalls {
+	for i, ac := range fg.c.AtCalls {
 		if ac.Kind != "lemma" || !matchCallee(ac.Callee, name) {
 			continue
 		}
+		fg.acMatched[i] = true
 		env := fg.env(fg.cur, fg.entry, nil)
 		fg.bindCallArgs(env, args)
 		env.atBlock = fg.curBlock
@@ -212,10 +219,11 @@ func (fg *FnGen) atCallGhosts(name string, args []*Val, res *Val, pos token.Pos)
 		}
 		fg.oblige("lemma."+sanitize(name), label, t, pos, "lemma after every call of "+name+": "+ac.Clause.Src)
 	}
-	for _, ac := range fg.c.AtCalls {
+	for i, ac := range fg.c.AtCalls {
 		if ac.Kind != "ghost" || !matchCallee(ac.Callee, name) {
 			continue
 		}
+		fg.acMatched[i] = true
 		comp, ok := fg.ghosts[ac.Target]
 		env := fg.env(fg.cur, fg.entry, nil)
 		fg.bindCallArgs(env, args)
@@ -541,8 +549,9 @@ func (fg *FnGen) uncontractedCall(cc *ssa.CallCommon, fn *ssa.Function, name str
 			}
 			fg.havocAll("callback " + name)
 			fg.havocAllCounters(pos)
+			// the function value may be one of this function's closures: the variables they assign change
 			for _, comp := range append([]string{}, fg.compOrder...) {
-				if strings.HasPrefix(comp, "H:local!") {
+				if strings.HasPrefix(comp, "H:local!") && fg.localAssignedByClosure(comp) {
 					fg.havocComp(comp)
 				}
 			}
@@ -1005,6 +1014,12 @@ func (g *Gen) checkStableDecls() []*Obligation {
 			}
 			continue
 		}
+		if d.Kind == "chaninv" && len(d.Args) >= 1 {
+			if o := g.checkChanInvUses(d); o != nil {
+				out = append(out, o)
+			}
+			continue
+		}
 		if (d.Kind != "stable" && d.Kind != "frozen" && d.Kind != "stablecells") || len(d.Args) < 1 {
 			continue
 		}
@@ -1105,6 +1120,94 @@ func (g *Gen) checkStableDecls() []*Obligation {
 		out = append(out, o)
 	}
 	return out
+}
+
+// checkChanInvUses: the channel of a `decl chaninv T.f` is a pure completion signal. Every use of the channel value
+// loaded from the field in the declaring package is a receive, a receive case of a select, or close(); nothing is sent
+// on it and it is not handed to other code (so only its close wakes a receiver).
+func (g *Gen) checkChanInvUses(d *Decl) *Obligation {
+	sp := g.ssaPkgs[d.PkgPath]
+	if sp == nil {
+		return nil
+	}
+	field := d.Args[0]
+	prefix := "H:" + sp.Pkg.Name() + "." + field
+	var offenders []string
+	var visit func(fn *ssa.Function)
+	visit = func(fn *ssa.Function) {
+		key := fnKey(fn)
+		for _, b := range fn.Blocks {
+			for _, ins := range b.Instrs {
+				u, ok := ins.(*ssa.UnOp)
+				if !ok || u.Op != token.MUL {
+					continue
+				}
+				fa, ok := u.X.(*ssa.FieldAddr)
+				if !ok {
+					continue
+				}
+				kind, p, _, ok := staticPrefix(fa)
+				if !ok || kind+p != prefix {
+					continue
+				}
+				for _, ref := range *u.Referrers() {
+					okUse := false
+					switch r := ref.(type) {
+					case *ssa.DebugRef:
+						okUse = true
+					case *ssa.UnOp:
+						okUse = r.Op == token.ARROW
+					case *ssa.Select:
+						okUse = true
+						for _, st := range r.States {
+							if st.Chan == ssa.Value(u) && st.Dir != types.RecvOnly {
+								okUse = false
+							}
+							if st.Send == ssa.Value(u) {
+								okUse = false
+							}
+						}
+					case *ssa.Call:
+						if bi, isB := r.Call.Value.(*ssa.Builtin); isB && bi.Name() == "close" {
+							okUse = true
+						}
+					case *ssa.BinOp:
+						okUse = true // comparison with nil
+					}
+					if !okUse {
+						offenders = append(offenders, key+" uses the channel other than by receive/close ("+g.fset.Position(ref.Pos()).String()+")")
+					}
+				}
+			}
+		}
+		for _, a := range fn.AnonFuncs {
+			visit(a)
+		}
+	}
+	for _, m := range sp.Members {
+		switch x := m.(type) {
+		case *ssa.Function:
+			visit(x)
+		case *ssa.Type:
+			for _, T := range []types.Type{x.Type(), types.NewPointer(x.Type())} {
+				ms := g.prog.MethodSets.MethodSet(T)
+				for i := 0; i < ms.Len(); i++ {
+					if fn := g.prog.MethodValue(ms.At(i)); fn != nil && fn.Synthetic == "" && fn.Pkg == sp {
+						visit(fn)
+					}
+				}
+			}
+		}
+	}
+	o := &Obligation{Name: g.shortPkg(d.PkgPath) + "." + field + "#chaninv.signal.only", Kind: "stable", Fn: field,
+		Desc: "channel " + field + " is only received from and closed (never sent on, never handed to other code) in its package", NAsserts: -1}
+	if len(offenders) == 0 {
+		o.Res = SolverResult{Result: "unsat", Solver: "ssa-scan"}
+	} else {
+		sort.Strings(offenders)
+		o.Res = SolverResult{Result: "unknown", Output: strings.Join(dedupe(offenders), "; ")}
+	}
+	return o
 }
 
 func dedupe(xs []string) []string {
@@ -1391,6 +1494,37 @@ func (fg *FnGen) applyCallback(cb *Val, name string, pos token.Pos) {
 			}
 		}
 	}
+}
+
+// localAssignedByClosure: the private-local component belongs to a variable that some closure of this function
+// (transitively) may assign; variables that closures only read keep their value across callbacks.
+func (fg *FnGen) localAssignedByClosure(comp string) bool {
+	if fg.closureWritten == nil {
+		fg.closureWritten = map[string]bool{}
+		for _, b := range fg.fn.Blocks {
+			for _, ins := range b.Instrs {
+				a, ok := ins.(*ssa.Alloc)
+				if !ok || a.Referrers() == nil {
+					continue
+				}
+				captured := false
+				for _, r := range *a.Referrers() {
+					if _, ok := r.(*ssa.MakeClosure); ok {
+						captured = true
+					}
+				}
+				if captured && !closuresOnlyRead(a, 0) {
+					fg.closureWritten["H:local!"+fg.fn.Name()+"!"+a.Name()+"!"] = true
+				}
+			}
+		}
+	}
+	for pfx := range fg.closureWritten {
+		if strings.HasPrefix(comp, pfx) {
+			return true
+		}
+	}
+	return false
 }
 
 // closureAssigns: the closure stores directly to its i-th captured variable.
